@@ -473,6 +473,19 @@ func (w *nsWorld) checkHostmaps(rt *rapid.T) (tunnels, fresh int) {
 				rt.Fatalf("node %s: index %d points to a tunnel that no overlay address maps to (%v)", x.name, idx, h.vpnAddrs)
 			}
 			tunnels++
+			// attribution of the underlay address: a tunnel's current remote is where its authenticated
+			// peer (or an off-path forwarder of its genuine packets) sent from - never the underlay
+			// address of a different node of the world, such as the relay that carried its handshake
+			if r := h.GetRemote(); r.IsValid() && h.ConnectionState != nil && h.ConnectionState.peerCert != nil {
+				if pi, ok := w.byFP[h.ConnectionState.peerCert.Fingerprint]; ok {
+					for j, sp := range w.specs {
+						if j != pi && sp.udp == r && w.specs[pi].udp != r {
+							hm.RUnlock()
+							rt.Fatalf("node %s: the tunnel authenticated as %s (index %d) has the underlay address %v of node %s as its remote", x.name, w.specs[pi].name, idx, r, sp.name)
+						}
+					}
+				}
+			}
 			if !w.known[h] {
 				w.known[h] = true
 				fresh++
